@@ -405,6 +405,41 @@ def sl3456(F, R):
               "slice(v) does not follow every edge: its predicate is not constantly true (or it slices from another vertex)")
 
 
+def sl7(F, R):
+    """a slice of a present start vertex is always produced: slice() / slice_some() build no `Err` of their own, except to refuse an id at
+    or beyond the capacity (outside every quantifier)"""
+    for name in ("slice", "slice_some"):
+        b = F.fn("Sodg", name)
+        if b is None:
+            R.missing("SL7", "Sodg::" + name)
+            continue
+        R.analysed(b)
+        n = 0
+        for d in b.defs().get(0, []):
+            site = (d[0], d[1])
+            try:
+                v = strip_load(b.expr_rvalue(d[3], site) if d[2] == "assign" else b.expr_call(d[3], site))
+            except Exception:
+                continue
+            if not (v[0] == "agg" and v[2] == "Err"):
+                continue
+            n += 1
+            facts = b.facts_at(site)
+            beyond = False
+            for f in facts:
+                if f[0] == "cmp" and f[1] in ("<=", "<"):
+                    l, r = strip_load(f[2]), strip_load(f[3])
+                    if l[0] == "call" and l[1].split("::")[-1] == "capacity" and r[0] == "param" and f[1] == "<=":
+                        beyond = True
+            if beyond:
+                R.ok("SL7", b.where(site), "Err only for a start id at or beyond the capacity")
+            else:
+                R.bad("SL7", "SL7/Sodg::%s/own-error" % name, b.where(site),
+                      "%s() can refuse to produce a slice (an Err built here, not propagated): a legal start vertex gets no slice" % name,
+                      {"guards": [show(f, b)[:120] for f in facts if "Level" not in repr(f)][:6]})
+        R.ok("SL7", b.where(), "%s(): %d own Err results examined" % (name, n))
+
+
 def base_root_is(e, root):
     ch = base_chain(e)
     return bool(ch) and strip_load(ch[-1]) == root
@@ -557,6 +592,47 @@ def nd2(F, R):
 
 
 # ---------------------------------------------------------------- ND3: N and capacity are only bounds
+def refuses_an_id_beyond_the_capacity(b, bi, e):
+    """the switch at block bi compares an id *parameter* with the vertex capacity, and one of its two edges leads to `Err` results only
+    (never to the other edge's code): ids at or above the capacity are outside every property's quantifier, so refusing them with
+    an error instead of the containers' panic changes nothing within it"""
+    core = strip_load(e)
+    if core[0] != "binop" or core[1] not in ("Lt", "Le", "Gt", "Ge"):
+        return False
+    sides = [strip_load(core[2]), strip_load(core[3])]
+    if not any(x[0] == "param" for x in sides) or not any(x[0] == "call" and x[1].split("::")[-1] == "capacity" for x in sides):
+        return False
+    succs = [s for s, _ in b.succ[bi]]
+    if len(succs) != 2:
+        return False
+
+    def reach(x):
+        seen, st = set(), [x]
+        while st:
+            y = st.pop()
+            if y in seen:
+                continue
+            seen.add(y)
+            st.extend(z for z, _ in b.succ[y])
+        return seen
+    for s_exit, s_other in (succs, succs[::-1]):
+        r = reach(s_exit)
+        if s_other in r:
+            continue
+        vals = []
+        for d in b.defs().get(0, []):
+            if d[0] in r:
+                site = (d[0], d[1])
+                try:
+                    v = b.expr_rvalue(d[3], site) if d[2] == "assign" else b.expr_call(d[3], site)
+                except Exception:
+                    return False
+                vals.append(strip_load(v))
+        if vals and all(v[0] == "agg" and v[2] == "Err" for v in vals):
+            return True
+    return False
+
+
 def n_only_in_full_map_assertion(b, site, kind, s):
     """the use of N at `site` is (a) on a path that never returns (the text of a panic), or (b) the comparison `edges.len() < N` of
     an assertion whose other disjunct is `edges.contains_key(<label>)`: false ⇒ contains_key ⇒ (true: continue where `<` continues;
@@ -681,7 +757,7 @@ def nd3(F, R):
                         e = b.expr_operand(tt["op"], (bi, b.term_idx(bi)))
                         if uses_directly(e, lambda x: x[0] == "call" and x[1].split("::")[-1] == "capacity" and x[3] == val_bb):
                             succs = [s for s, _ in b.succ[bi]]
-                            if sum(1 for s in succs if s in b.can_return) > 1:
+                            if sum(1 for s in succs if s in b.can_return) > 1 and not refuses_an_id_beyond_the_capacity(b, bi, e):
                                 bad = ((bi, b.term_idx(bi)), "branch")
                 # stored into state / returned
                 for s2, st in b.writes():
